@@ -184,6 +184,10 @@ func max64(a, b int64) int64 {
 
 // MinDepositFor: max(global minimum, base * multiple)
 func (c Config) MinDepositFor(base int64) int64 {
+	if c.baseDenom() != "stake" {
+		// prices are in "stake": their amount of the base denomination is zero, only the global minimum remains
+		base = 0
+	}
 	m := base * c.Multiple
 	if c.MinDeposit != nil && *c.MinDeposit > m {
 		m = *c.MinDeposit
